@@ -216,6 +216,15 @@ end:
 	}
 	// only + or - is parsed
 	if state == sIntPMFlag {
+		// several leading signs in front of digits (--123, ++18): the manual lists this as a
+		// malformed number ("前导符号只能有一个"), it is not a name
+		i := 1
+		for i < len(charArr) && (charArr[i] == '+' || charArr[i] == '-') {
+			i++
+		}
+		if i > 1 && i < len(charArr) && charArr[i] >= '0' && charArr[i] <= '9' {
+			return false, zerr.InvalidIDFormat(id.GetLiteral())
+		}
 		return false, nil
 	}
 	// Parsing flow NOT FINISH: e.g. `15.` got error where no number after decimal point
